@@ -277,6 +277,22 @@ impl World {
             Ok(()) => Ok(Ok(())),
             Err(mut v) => {
                 v.step = self.step;
+                if std::env::var_os("VERIF_DUMP").is_some() {
+                    for n in 0..self.n() {
+                        if !self.live(n) {
+                            continue;
+                        }
+                        let conn = self.read_conn(n).await?;
+                        eprintln!("--- node {n} crsql_changes");
+                        for l in crate::model::dump_clock(&conn, true, &self.site_names)? {
+                            eprintln!("    {l}");
+                        }
+                        eprintln!("--- shadow {n} crsql_changes");
+                        for l in crate::model::dump_clock(&self.shadows[n].conn, true, &self.site_names)? {
+                            eprintln!("    {l}");
+                        }
+                    }
+                }
                 Ok(Err(v))
             }
         }
@@ -772,6 +788,7 @@ impl World {
                     changes: BTreeMap::new(),
                     last_seq_conflict: false,
                     stale_rows: false,
+                    reverted: false,
                 });
                 if vm.last_seq != last_seq.0 {
                     vm.last_seq_conflict = true;
@@ -843,6 +860,7 @@ impl World {
                         let changes: Vec<Change> = vm.changes.values().cloned().collect();
                         vm.state = VState::Applied;
                         vm.stale_rows = true;
+                        vm.reverted = false;
                         self.shadows[n].merge(&changes)?;
                         self.stats.probe("model.applied-buffered");
                     }
@@ -1041,6 +1059,7 @@ impl World {
                 if vm.stale_rows && vm.state != VState::Partial && !vm.covered() {
                     vm.state = VState::Partial;
                     vm.stale_rows = false;
+                    vm.reverted = true;
                     hits += 1;
                 }
             }
@@ -1053,11 +1072,8 @@ impl World {
                 .map(|(v, _)| *v)
                 .max()
                 .unwrap_or(0);
-            let new_max = if has_ordinal || with_rows > 0 {
-                durable.max(with_rows)
-            } else {
-                0
-            };
+            let _ = has_ordinal;
+            let new_max = durable.max(with_rows);
             let forget: Vec<u64> = am.versions.range(new_max + 1..).map(|(v, _)| *v).collect();
             if !forget.is_empty() {
                 self.stats.probe_n("model.head-regressed-after-restart", forget.len() as u64);
